@@ -224,3 +224,139 @@ pub fn run_shard(profile_name: &str, prop: &str, seed: u64, shard: u64, start: u
         ("samples", J::Arr(samples)),
     ])
 }
+
+// ------------------------------------------------------------------------------------------
+// C13: fault enumeration
+// ------------------------------------------------------------------------------------------
+
+pub struct FaultRun {
+    pub kind: &'static str,
+    pub violations: Vec<Violation>,
+    pub reached: bool,
+}
+
+/// clean run: returns (action index of the chosen stabilise, number of user-function invocations in it)
+pub fn fault_plan(cfg: &GenCfg, seed: u64, pick: u64) -> Option<(usize, u64, Vec<String>)> {
+    let mut rng = Rng::new(seed);
+    let wcfg = Config { audit: false, read_all: false, c06: false, compare_values: true };
+    let mut w = World::new(1024, wcfg);
+    w.sh.step_limit.set(200_000);
+    let mut g = Gen::new(cfg.clone());
+    let mut actions = vec![];
+    while let Some(a) = g.next(&w, &mut rng) {
+        actions.push(format!("{:?}", a));
+        if !w.apply(&a) {
+            break;
+        }
+    }
+    if !w.violations.is_empty() {
+        return None;
+    }
+    let cands: Vec<(usize, u64)> = w.stabilise_steps.iter().filter(|(_, b, e)| e > b).map(|(a, b, e)| (*a, e - b)).collect();
+    if cands.is_empty() {
+        return None;
+    }
+    // mostly the last stabilise (largest graph), sometimes an earlier one
+    let c = if pick % 3 == 0 { cands[(pick as usize / 3) % cands.len()] } else { *cands.last().unwrap() };
+    let mut w2 = w;
+    let mut r2 = Rng::new(seed ^ 0x5555);
+    w2.teardown(&mut r2, false, false);
+    let _ = std::panic::catch_unwind(std::panic::AssertUnwindSafe(move || drop(w2)));
+    Some((c.0, c.1, actions))
+}
+
+pub fn fault_run(cfg: &GenCfg, seed: u64, action: usize, offset: u64, teardown_seed: u64) -> FaultRun {
+    let mut rng = Rng::new(seed);
+    let wcfg = Config { audit: false, read_all: false, c06: false, compare_values: true };
+    let mut w = World::new(1024, wcfg);
+    w.sh.step_limit.set(200_000);
+    w.fault = Some((action, offset));
+    let mut g = Gen::new(cfg.clone());
+    while let Some(a) = g.next(&w, &mut rng) {
+        if !w.apply(&a) {
+            break;
+        }
+    }
+    let reached = w.poisoned && w.panic_msg.as_deref() == Some("<injected>");
+    let mut kind = "?";
+    if reached {
+        kind = w.post_fault_checks();
+    }
+    let mut tr = Rng::new(teardown_seed);
+    let state_first = tr.chance(1, 3);
+    w.teardown(&mut tr, state_first, false);
+    let mut violations = w.violations.clone();
+    if let Err(e) = std::panic::catch_unwind(std::panic::AssertUnwindSafe(move || drop(w))) {
+        violations.push(Violation { prop: "C13", msg: format!("dropping the remaining handles after the escaped panic panicked again: {}", panic_text(&e)), action_index: usize::MAX });
+    }
+    FaultRun { kind, violations, reached }
+}
+
+pub fn run_fault_shard(profile_name: &str, seed: u64, shard: u64, start: u64, count: u64, cap: u64, progress: Option<&str>) -> J {
+    let cfg = profile(profile_name);
+    let mut violations: Vec<J> = vec![];
+    let (mut points, mut inside, mut histories, mut capped) = (0u64, 0u64, 0u64, 0u64);
+    let mut kinds: std::collections::BTreeMap<&'static str, u64> = Default::default();
+    let mut samples = vec![];
+    for i in start..count {
+        let hseed = mix(mix(seed, shard), i);
+        let Some((action, n, actions)) = fault_plan(&cfg, hseed, i) else { continue };
+        histories += 1;
+        let offsets: Vec<u64> = if n <= cap { (0..n).collect() } else {
+            capped += 1;
+            (0..cap).map(|j| j * n / cap).collect()
+        };
+        for off in offsets {
+            if let Some(p) = progress {
+                let _ = std::fs::write(p, format!("{profile_name} {i} {hseed} {action} {off}\n"));
+            }
+            let r = fault_run(&cfg, hseed, action, off, mix(hseed, off));
+            if !r.reached {
+                continue;
+            }
+            points += 1;
+            *kinds.entry(r.kind).or_default() += 1;
+            if off > 0 && off + 1 < n && r.kind != "handler" {
+                inside += 1;
+            }
+            if samples.is_empty() && off > 0 && off + 1 < n {
+                samples.push(J::obj(vec![
+                    ("history_seed", J::s(hseed.to_string())),
+                    ("stabilise_at_action", J::Int(action as i64)),
+                    ("user_function_invocations_in_that_stabilise", J::Int(n as i64)),
+                    ("panic_injected_at_invocation", J::Int(off as i64)),
+                    ("kind", J::s(r.kind)),
+                    ("actions", J::Arr(actions.iter().map(|a| J::s(a.clone())).collect())),
+                ]));
+            }
+            for v in &r.violations {
+                if violations.len() < 20 {
+                    violations.push(J::obj(vec![
+                        ("property", J::s(v.prop)),
+                        ("message", J::s(format!("panic injected at invocation {off} ({}) of the stabilise at action {action}: {}", r.kind, v.msg))),
+                        ("argv", J::Arr(vec![J::s("fault-one"), J::s(profile_name), J::s(hseed.to_string()), J::s(action.to_string()), J::s(off.to_string())])),
+                    ]));
+                }
+            }
+        }
+    }
+    let mut stats = vec![
+        ("histories_with_a_crashable_stabilise", J::Int(histories as i64)),
+        ("crash_points_strictly_inside_propagation", J::Int(inside as i64)),
+        ("histories_sampled_above_cap", J::Int(capped as i64)),
+        ("cap_per_stabilise", J::Int(cap as i64)),
+    ];
+    let kind_names: Vec<(String, u64)> = kinds.iter().map(|(k, v)| (format!("crash_in_{k}"), *v)).collect();
+    let mut obj: Vec<(String, J)> = stats.drain(..).map(|(k, v)| (k.to_string(), v)).collect();
+    for (k, v) in kind_names {
+        obj.push((k, J::Int(v as i64)));
+    }
+    J::obj(vec![
+        ("workload", J::s("faults")),
+        ("evaluations", J::Int(points as i64)),
+        ("nontrivial", J::Int(inside as i64)),
+        ("stats", J::Obj(obj)),
+        ("violations", J::Arr(violations)),
+        ("samples", J::Arr(samples)),
+    ])
+}
